@@ -202,6 +202,10 @@ Definition pack (n : name) : result bytes :=
   | _ => pack_parts (split_dot n)
   end.
 
+(* a process packs many names one after the other: there is no state, every result depends on its
+   own argument only (the correspondence check runs whole histories against this) *)
+Definition pack_history (names : list name) : list (result bytes) := map pack names.
+
 Definition compressible_types : list N :=
   [5; 13; 7; 3; 4; 8; 14; 9; 15; 2; 12; 6; 16; 17; 18; 21; 24; 26; 30; 35; 33]%N.
 
